@@ -2455,7 +2455,7 @@ LOOP:
 		// si.encNameHash = maxUintptr() // hashShortString(bytesView(si.encName))
 
 		for i := len(si.encName) - 1; i >= 0; i-- { // bounds-check elimination
-			if !jsonCharSafeBitset.isset(si.encName[i]) {
+			if !jsonCharHtmlSafeBitset.isset(si.encName[i]) { // < > & also need escaping unless HTMLCharsAsIs
 				si.encNameEscape4Json = true
 				break
 			}
